@@ -53,6 +53,8 @@ def play_signature(p, code):
             "after an earlier run into the same output directory (%s), <output-dir>/latest does not resolve to the new run directory" % p["Prior"])
     elif code == 2 and not os.path.isabs(p["DataDir"]) and p["DataDir"] != ".":
         sig = "relative-output-dir-dangling-latest"
+    if code == 8 and all(m.endswith("/pipe1") for m in p.get("MissingArtifacts") or ["x"]):
+        sig = "artifact-tree-names-removed-fifo"
     if code == 9 and p.get("Repeat") and p.get("Fouled") and p.get("FoulKind") == "early":
         sig = "plot-script-loads-missing-lastplot"
     if code == 1 and p.get("Upload") and p.get("BlankDir"):
@@ -78,7 +80,6 @@ def run(tier, seed):
         "observed only, by walking the file system after real plays: nothing appears outside <output-dir>/<run id> and <output-dir>/latest (inside a private root holding cwd, HOME and TMPDIR), every path of result.js's artifact tree and every data file / loaded script named in plots/*.gp exists, result.js is `var result = ` followed by exactly one JSON document (it is JavaScript, as report.html needs it)",
         "times: csv files print 4 decimals, so containment in [MinTime, MaxTime] is checked with a tolerance of 0.00005 s; times not written to any csv (mood changes) are only covered by the hook-level range cases",
         "no failure after the play (plot, result files, upload) in the survival / exit-status statements except where the theorem says otherwise; gnuplot is absent here (a warning, not an error); the upload is exercised with a fake scp",
-        "a fifo / socket / device left by an actor is listed in result.js and then removed by removeNonUploadableFiles (c12_listed_tree_with_fifo_refuted; reported as a side finding): the tree theorem and the tree oracle exempt such trees, the plays do not create any",
         "the run id is the wall-clock second: two runs into the same output directory within one second are outside the claim",
     ]
     ok, detail = vlib.proof_stage(res, "C12", THEOREMS)
@@ -109,7 +110,7 @@ def run(tier, seed):
     res.coverage.update({
         "evaluations": n_eval,
         "distinct_nontrivial": summary["distinct_nontrivial"],
-        "rule": "plays: quick = a greedy 3-way covering array of {-k} x {--clear} x {--disable-plots} x {-q} x {fouled (by an auditor or by a failing action), clean} x {'.', out, a/b/out, absolute (with a blank)} x {repeat section, none} (every triple of factor values occurs; the seed changes the rows), thorough = all 256; plus 4 --upload-url plays with a fake scp, one probing an output directory with a blank, 6 plays (24 thorough) that follow an earlier run into the same output directory one second before (erased by --clear, deleted by hand, or kept) and 2 (8) whose repeat section is never reached because a failing action fouls act 1 (plots on). The `mk` action of every play leaves editor temporaries (copy.txt~ from cp -b, notes~, #edit#, #half~) and a directory old~ with a file; besides `every named path exists` the oracle now asks that every file left in the run directory (but index.html / upload.log, written later) is named. trees: 150 (2000) generated directory trees (names a.txt b~ #c# #d~ e# # ~ h~x j#~ ..., directories d~ #g# ..., regular files, symbolic links, fifos in a third of them) through the real collectArtifacts and removeNonUploadableFiles (hook VerifArtifacts). Fouls are by an auditor, by a failing action in the last (repeated) act, or by one in act 1. Spotlights emit an instant far in the future and (3 of 4) one in the past, so MinTime < 0 < 1 < MaxTime. links: the real prepareDirs for 13 forms of output directory (absolute, '.', relative, nested, './x', 'x/', 'a/../x', '../w2/x', 'a//b', with a blank, ...) x run ids (some without). ranges: lists of 0-8 instants (multiples of 1/1024 s in [-5 s, 12 s]) through the real assemble. paths: generated strings of up to 5 components from {a, b, .., ., '', 'c d', x.y, out, ...}. distinct_nontrivial = distinct plays (by factor values) + link forms + ranges of >= 2 instants.",
+        "rule": "plays: quick = a greedy 3-way covering array of {-k} x {--clear} x {--disable-plots} x {-q} x {fouled (by an auditor or by a failing action), clean} x {'.', out, a/b/out, absolute (with a blank)} x {repeat section, none} (every triple of factor values occurs; the seed changes the rows), thorough = all 256; plus 4 --upload-url plays with a fake scp, one probing an output directory with a blank, 6 plays (24 thorough) that follow an earlier run into the same output directory one second before (erased by --clear, deleted by hand, or kept) and 2 (8) whose repeat section is never reached because a failing action fouls act 1 (plots on). The `mk` action of every play leaves editor temporaries (copy.txt~ from cp -b, notes~, #edit#, #half~), a directory old~ with a file, and a fifo; besides `every named path exists` the oracle now asks that every file left in the run directory (but index.html / upload.log, written later) is named. trees: 150 (2000) generated directory trees (names a.txt b~ #c# #d~ e# # ~ h~x j#~ ..., directories d~ #g# ..., regular files, symbolic links, fifos in a third of them) through the real collectArtifacts and removeNonUploadableFiles (hook VerifArtifacts). Fouls are by an auditor, by a failing action in the last (repeated) act, or by one in act 1. Spotlights emit an instant far in the future and (3 of 4) one in the past, so MinTime < 0 < 1 < MaxTime. links: the real prepareDirs for 13 forms of output directory (absolute, '.', relative, nested, './x', 'x/', 'a/../x', '../w2/x', 'a//b', with a blank, ...) x run ids (some without). ranges: lists of 0-8 instants (multiples of 1/1024 s in [-5 s, 12 s]) through the real assemble. paths: generated strings of up to 5 components from {a, b, .., ., '', 'c d', x.y, out, ...}. distinct_nontrivial = distinct plays (by factor values) + link forms + ranges of >= 2 instants.",
         "samples": summary["samples"],
         "distribution": {k: summary[k] for k in ("clean", "join", "abs", "link", "range", "plays", "tree", "trees_with_a_fifo", "play_distribution", "link_hook_errors")},
         "traces_validated_against_impl": summary["plays"],
@@ -160,7 +161,13 @@ def run(tier, seed):
         c = cases["tree"][idx]
         gone = [x for x in c["Listed"] if x not in (c["Survived"] or [])]
         unnamed = [x for x in (c["Survived"] or []) if x not in (c["Listed"] or [])]
-        res.violation("artifact-tree-vs-surviving-files",
+        sig = "artifact-tree-vs-surviving-files"
+        if c["HasOther"] and gone and not unnamed:
+            sig = "artifact-tree-names-removed-fifo"
+        if sig in seen:
+            continue
+        seen.add(sig)
+        res.violation(sig,
                       "collectArtifacts lists %s which removeNonUploadableFiles then deletes; it leaves %s unlisted" % (gone, unnamed),
                       {"kind": "failing-input", "input": c,
                        "replay": "build the tree in an empty directory d (reg = file, sym = symlink, dir = directory); cmd.VerifArtifacts(d)"})
